@@ -180,6 +180,21 @@ CLAIMED = {
         "blank-node identifiers). One defect repaired (hash-ordered iteration of rdflib graphs).",
    technique="Lean 4 proof (order-independence lemmas, prefix choice) + differential correspondence + multi-process replay under different hash seeds",
    design="5/C19"),
+ "C07": dict(
+   text="Proof: a Lean model of BigTtlTriplesYielder (line cleaning, comment stripping, tokenizer, the s/p/o state machine persisting across lines, "
+        "prefix / base handling, final classification) and the dialect as data: statement groups with ';' and ',' whose terms are <absolute>, "
+        "<relative>, pre:local, 'a', _:label, plain / language-tagged / datatyped (as <IRI> or with any declared prefix) literals and untyped "
+        "integers; the token stream is cut into physical lines at ARBITRARY token boundaries, with arbitrary runs of blanks, trailing comments, "
+        "empty and comment lines. Theorem: the reader yields exactly the triples of the groups (node kinds, expanded IRIs, labels, datatypes), in "
+        "order, raises nothing, and returns to the waiting-for-subject state - unbounded in groups, lines and content (1900 lines of agent-written, "
+        "kernel-checked lemmas). Tie: Ttl.readLines vs the implementation on every generated document, exception classes included. Search: "
+        "layout generator + every line-break placement of small documents, compared with the abstract triples and with rdflib; 14 families of "
+        "documents outside the dialect must raise or agree with rdflib.",
+   note="Trusts Lean's kernel, the hand-written model (tied by correspondence), urljoin as the parameter `resolve` with the stated hypotheses, float() "
+        "acceptance as isNum. The theorem assumes literal content without tab / CR / runs of blanks (the reader normalises those inside literals: "
+        "lexical form changes, datatype does not; correspondence only). Seven defects repaired.",
+   technique="Lean 4 proof (tokenizer + state-machine refinement to the statement-group semantics, by induction over lines and groups) + differential correspondence + bounded-exhaustive layout search",
+   design="5/C07"),
 }
 PENDING_REASON = "check not built yet (work in progress; see DESIGN.md section 9 for the build order)"
 
